@@ -138,19 +138,22 @@ func (commander *Commander) exec(ctx context.Context, parameters Parameters, scr
 			return nil, nil, NewErrNoPostings()
 		}
 
-		tx := ledger.NewTransaction().
-			WithPostings(result.Postings...).
-			WithMetadata(result.Metadata).
-			WithDate(script.Timestamp).
-			WithID(commander.nextTXID()).
-			WithReference(script.Reference)
+		// The transaction id is allocated by the commander in the same critical section
+		// which chains the log and hands it off to the batcher.
+		chainedLog, done, err := executionContext.AppendTransactionLog(ctx, func(txID *big.Int) *ledger.Log {
+			tx := ledger.NewTransaction().
+				WithPostings(result.Postings...).
+				WithMetadata(result.Metadata).
+				WithDate(script.Timestamp).
+				WithID(txID).
+				WithReference(script.Reference)
 
-		log := logComputer(tx, result.AccountMetadata)
-		if parameters.IdempotencyKey != "" {
-			log = log.WithIdempotencyKey(parameters.IdempotencyKey)
-		}
-
-		chainedLog, done, err := executionContext.AppendLog(ctx, log)
+			log := logComputer(tx, result.AccountMetadata)
+			if parameters.IdempotencyKey != "" {
+				log = log.WithIdempotencyKey(parameters.IdempotencyKey)
+			}
+			return log
+		})
 		if err != nil {
 			return nil, nil, err
 		}
@@ -257,22 +260,31 @@ func (commander *Commander) Close() {
 	commander.running.Wait()
 }
 
-func (commander *Commander) chainLog(log *ledger.Log) *ledger.ChainedLog {
+// appendLog builds a log, chains it and hands it off to the batcher in a single critical section:
+// logs must reach the batcher in the order they are chained, and a transaction id must be
+// consumed only by a log which is actually appended, in the order of the logs.
+// logBuilder receives the next free transaction id; the id is consumed only if allocateTXID is set.
+func (commander *Commander) appendLog(allocateTXID bool, logBuilder func(nextTXID *big.Int) *ledger.Log, callback func()) *ledger.ChainedLog {
 	commander.mu.Lock()
 	defer commander.mu.Unlock()
 
-	commander.lastLog = log.ChainLog(commander.lastLog)
-	return commander.lastLog
+	nextTXID := big.NewInt(0).Add(commander.lastTXID, big.NewInt(1))
+	chainedLog := logBuilder(nextTXID).ChainLog(commander.lastLog)
+	if allocateTXID {
+		commander.lastTXID = nextTXID
+	}
+	commander.lastLog = chainedLog
+	commander.Append(chainedLog, callback)
+
+	return chainedLog
 }
 
-func (commander *Commander) nextTXID() *big.Int {
+// peekNextTXID returns the id the next transaction would get, without consuming it.
+func (commander *Commander) peekNextTXID() *big.Int {
 	commander.mu.Lock()
 	defer commander.mu.Unlock()
 
-	ret := big.NewInt(0).Add(commander.lastTXID, big.NewInt(1))
-	commander.lastTXID = ret
-
-	return ret
+	return big.NewInt(0).Add(commander.lastTXID, big.NewInt(1))
 }
 
 func (commander *Commander) DeleteMetadata(ctx context.Context, parameters Parameters, targetType string, targetID any, key string) error {
